@@ -1,7 +1,7 @@
 CONSTANTS
  SrcArrs = {1,2,3,4,5,6,7,8,9,10,11,12}
  SensArrs = {1,2,3,4,5,6,7,8,9,10,11,12,13,14,15,16,17}
- PPs = {1,2,3,4}
+ PPs = {1,2,3,4,5}
  Fields = {"B", "H"}
  Aggs = {"none"}
  Flags = {0, 1}
